@@ -108,14 +108,17 @@ Inductive hevent :=
 | HDel (n : ni) (k : skey) (e : option sentry).      (* DELETE with the removed entry (nil if it was absent) *)
 Inductive revent := REv (add : bool) (n : ni) (t : tkind) (k : N) (snap : amap nistate).
 
-Record out := { oks : list N; fails : list N; fatal : bool; hev : list hevent; rev : list revent; nofuel : bool }.
-Definition out0 := {| oks := []; fails := []; fatal := false; hev := []; rev := []; nofuel := false |}.
-Definition add_ok i o := {| oks := oks o ++ [i]; fails := fails o; fatal := fatal o; hev := hev o; rev := rev o; nofuel := nofuel o |}.
-Definition add_fail i o := {| oks := oks o; fails := fails o ++ [i]; fatal := fatal o; hev := hev o; rev := rev o; nofuel := nofuel o |}.
-Definition add_hev (l : list hevent) o := {| oks := oks o; fails := fails o; fatal := fatal o; hev := hev o ++ l; rev := rev o; nofuel := nofuel o |}.
-Definition add_rev (l : list revent) o := {| oks := oks o; fails := fails o; fatal := fatal o; hev := hev o; rev := rev o ++ l; nofuel := nofuel o |}.
-Definition set_fatal o := {| oks := oks o; fails := fails o; fatal := true; hev := hev o; rev := rev o; nofuel := nofuel o |}.
-Definition set_nofuel o := {| oks := oks o; fails := fails o; fatal := fatal o; hev := hev o; rev := rev o; nofuel := true |}.
+Record out := { oks : list N; fails : list N; fatal : bool; hev : list hevent; rev : list revent; nofuel : bool;
+                acked : list (ni * rop) (* the operations behind oks, in the same order *) }.
+Definition out0 := {| oks := []; fails := []; fatal := false; hev := []; rev := []; nofuel := false; acked := [] |}.
+Definition add_ok (n : ni) (op : rop) o :=
+  {| oks := oks o ++ [op_id op]; fails := fails o; fatal := fatal o; hev := hev o; rev := rev o; nofuel := nofuel o;
+     acked := acked o ++ [(n, op)] |}.
+Definition add_fail i o := {| oks := oks o; fails := fails o ++ [i]; fatal := fatal o; hev := hev o; rev := rev o; nofuel := nofuel o; acked := acked o |}.
+Definition add_hev (l : list hevent) o := {| oks := oks o; fails := fails o; fatal := fatal o; hev := hev o ++ l; rev := rev o; nofuel := nofuel o; acked := acked o |}.
+Definition add_rev (l : list revent) o := {| oks := oks o; fails := fails o; fatal := fatal o; hev := hev o; rev := rev o ++ l; nofuel := nofuel o; acked := acked o |}.
+Definition set_fatal o := {| oks := oks o; fails := fails o; fatal := true; hev := hev o; rev := rev o; nofuel := nofuel o; acked := acked o |}.
+Definition set_nofuel o := {| oks := oks o; fails := fails o; fatal := fatal o; hev := hev o; rev := rev o; nofuel := true; acked := acked o |}.
 
 Definition is_hooked (r : rib) (n : ni) : bool := match nget n (nis r) with Some s => hooked s | None => false end.
 Definition hk (r : rib) (n : ni) (e : hevent) : list hevent := if is_hooked r n then [e] else [].
@@ -228,7 +231,7 @@ Section Cascade.
         let r'' := set_pend (ndel (op_id o) (pend r')) r' in
         fold_left (fun st' e => aei f st' (fst (snd e)) (snd (snd e)))
                   (ord (pend r''))
-                  (r'', add_rev rv (add_hev h (add_ok (op_id o) acc)), op_id o :: stack)
+                  (r'', add_rev rv (add_hev h (add_ok n o acc)), op_id o :: stack)
       end
     end.
 
@@ -263,25 +266,25 @@ Definition delete_entry (v : variant) (r : rib) (n : ni) (o : rop) : rib * out :
                 | Some _ => if res_hooked r then [REv false n t k (nis r2)] else []
                 | None => []
                 end in
-      (r2, add_rev rv (add_hev h (add_ok (op_id o) out0)))
+      (r2, add_rev rv (add_hev h (add_ok n o out0)))
     | EGrp id _ =>
       if id =? 0 then (r, add_fail (op_id o) out0) else
       match nget id (tabg s) with
-      | None => (r, add_hev (hk r n (HDel n (KGrp id) None)) (add_ok (op_id o) out0))
+      | None => (r, add_hev (hk r n (HDel n (KGrp id) None)) (add_ok n o out0))
       | Some g =>
         if 0 <? cnt (rcg s) id then (r, add_fail (op_id o) out0) else
         let r1 := upd_ni n (fun s' => set_tabg (ndel id (tabg s')) s') r in
         let r2 := upd_ni n (fun s' => set_rch (fold_left (fun m i => dec i m) (map fst (g_nhs g)) (rch s')) s') r1 in
-        (r2, add_hev (hk r n (HDel n (KGrp id) (Some (SGrp id g)))) (add_ok (op_id o) out0))
+        (r2, add_hev (hk r n (HDel n (KGrp id) (Some (SGrp id g)))) (add_ok n o out0))
       end
     | ENh idx _ =>
       if idx =? 0 then (r, add_fail (op_id o) out0) else
       match nget idx (tabh s) with
-      | None => (r, add_hev (hk r n (HDel n (KNh idx) None)) (add_ok (op_id o) out0))
+      | None => (r, add_hev (hk r n (HDel n (KNh idx) None)) (add_ok n o out0))
       | Some h =>
         if 0 <? cnt (rch s) idx then (r, add_fail (op_id o) out0) else
         (upd_ni n (fun s' => set_tabh (ndel idx (tabh s')) s') r,
-         add_hev (hk r n (HDel n (KNh idx) (Some (SNh idx h)))) (add_ok (op_id o) out0))
+         add_hev (hk r n (HDel n (KNh idx) (Some (SNh idx h)))) (add_ok n o out0))
       end
     | ENone => (r, set_fatal out0)
     end
